@@ -41,8 +41,8 @@ impl crate::explore::Report {
         let decl: Vec<String> = self.inputs_decl.iter().map(|(n, lo, hi)| format!("[{},{},{}]", esc(n), lo, hi)).collect();
         let strs = |v: &Vec<String>| format!("[{}]", v.iter().map(|s| esc(s)).collect::<Vec<_>>().join(","));
         format!(
-            "{{\"paths\":{},\"complete\":{},\"branches\":{},\"max_depth\":{},\"queries\":{},\"sat\":{},\"unsat\":{},\"unknown\":{},\"free_alts\":{},\"obligations\":{},\"discharged_solver\":{},\"discharged_concrete\":{},\"oblig_queries\":{},\"solver_secs\":{:.3},\"wall_secs\":{:.3},\"divergences\":{},\"refused\":{},\"solver_errors\":{},\"violations\":[{}],\"notes\":{},\"paths_with_note\":{},\"n_inputs\":{},\"n_terms\":{},\"inputs_decl\":[{}],\"witnesses\":[{}],\"labels\":{},\"digest\":\"{:016x}\",\"observed\":{},\"selfcheck_terms\":{}}}",
-            self.paths, self.complete, self.branches, self.max_depth, self.queries, self.sat, self.unsat, self.unknown, self.free_alts, self.obligations, self.discharged_solver, self.discharged_concrete, self.oblig_queries, self.solver_secs, self.wall_secs, self.divergences, strs(&self.refused), strs(&self.solver_errors), viol.join(","), map_u64(&self.notes), map_u64(&self.paths_with_note), self.n_inputs, self.n_terms, decl.join(","), wit.join(","), map_u64(&self.labels), self.digest, self.observed, self.selfcheck_terms
+            "{{\"paths\":{},\"complete\":{},\"branches\":{},\"max_depth\":{},\"queries\":{},\"sat\":{},\"unsat\":{},\"unknown\":{},\"free_alts\":{},\"obligations\":{},\"discharged_solver\":{},\"discharged_concrete\":{},\"oblig_queries\":{},\"solver_secs\":{:.3},\"wall_secs\":{:.3},\"divergences\":{},\"refused\":{},\"solver_errors\":{},\"violations\":[{}],\"notes\":{},\"paths_with_note\":{},\"n_inputs\":{},\"n_terms\":{},\"inputs_decl\":[{}],\"witnesses\":[{}],\"labels\":{},\"digest\":\"{:016x}\",\"observed\":{},\"selfcheck_terms\":{},\"unsat_by_core\":{}}}",
+            self.paths, self.complete, self.branches, self.max_depth, self.queries, self.sat, self.unsat, self.unknown, self.free_alts, self.obligations, self.discharged_solver, self.discharged_concrete, self.oblig_queries, self.solver_secs, self.wall_secs, self.divergences, strs(&self.refused), strs(&self.solver_errors), viol.join(","), map_u64(&self.notes), map_u64(&self.paths_with_note), self.n_inputs, self.n_terms, decl.join(","), wit.join(","), map_u64(&self.labels), self.digest, self.observed, self.selfcheck_terms, self.unsat_by_core
         )
     }
 }
